@@ -247,30 +247,105 @@ def _globals_rule(repo, rep):
               "every definition is stored in econtext", "local-store", where=w)
 
     for name in ("visit_UseInternalMacro", "visit_UseExternalMacro"):
-        f = repo.func(COMP + name)
-        r = L.emission(repo, COMP + name)
-        ln = L.Lin(r.emission)
-        call = upd = None
-        copy_in = False
-        for i, (it, conds, _) in enumerate(ln.rows):
-            if isinstance(it, A.Frag):
-                for node, b in L.frag_find(
-                        it, "_F(__stream, econtext.copy(), rcontext, "
-                            "__i18n_domain, __i18n_context, target_language)",
-                        "expr"):
-                    call = i
-                    copy_in = True
-                if L.frag_find(it, "econtext.update(rcontext)", "expr"):
-                    upd = i
-        rep.check(call is not None and copy_in, "R05.3", f.qualname,
+        mo = merge_after_macro(repo, name)
+        f = mo["func"]
+        call, upd, bare = mo["call"], mo["upd"], mo["bare"]
+        rep.check(call is not None, "R05.3", f.qualname,
                   "the macro is called with a copy of the variable scope "
                   "(its locals cannot reach the caller) and the shared "
                   "rcontext", construct="macro-copy-in", where=L.where(f))
-        rep.check(upd is not None and call is not None and upd > call,
+        rep.check(upd is not None and call is not None and upd > call
+                  and mo["top"] and mo["filter_ok"],
                   "R05.3", f.qualname,
                   "after the macro call the caller merges the global "
-                  "definitions back (econtext.update(rcontext))",
-                  construct="macro-merge-out", where=L.where(f))
+                  "definitions back: every global that is new or was "
+                  "re-assigned by the macro (econtext.update(...))",
+                  construct="macro-merge-out", where=L.where(f),
+                  detail=mo["detail"])
+        # ... but only what the macro defined: rcontext holds every global
+        # of the rendering so far, and writing all of them over the caller's
+        # scope replaces a local binding that shadows an earlier global --
+        # inside the element it belongs to
+        rep.check(upd is not None and not bare, "R05.3", f.qualname,
+                  "the merge after a macro call is limited to the globals "
+                  "the macro (re)defined; a caller's local that shadows an "
+                  "older global stays visible until its element ends",
+                  construct="macro-merge-overwrites-shadow",
+                  where=L.where(f), detail="econtext.update(rcontext) "
+                  "re-applies every global" if bare else "")
+
+
+def merge_after_macro(repo, name):
+    """How a macro-use emitter hands the macro's global definitions to the
+    caller's scope.  -> dict(call, upd, bare, top, filter_ok, detail)"""
+    f = repo.func(COMP + name)
+    r = L.emission(repo, COMP + name)
+    ln = L.Lin(r.emission)
+    out = dict(func=f, call=None, upd=None, bare=False, top=False,
+               filter_ok=False, detail="")
+    snaps = {}
+    for i, (it, conds, path) in enumerate(ln.rows):
+        if not isinstance(it, A.Frag):
+            continue
+        if L.frag_find(it, "_F(__stream, econtext.copy(), rcontext, "
+                           "__i18n_domain, __i18n_context, target_language)",
+                       "expr"):
+            out["call"] = i
+        for node, b in L.frag_find(it, "_S = rcontext.copy()"):
+            if isinstance(b["_S"], ast.Name):
+                snaps[L.name_key(it, b["_S"])] = (
+                    i, L.slot_value(it, b["_S"]))
+        for node, b in L.frag_find(it, "econtext.update(_A)", "expr"):
+            arg = b["_A"]
+            if "rcontext" not in src(arg):
+                continue
+            out["upd"] = i
+            out["top"] = not conds and not any(
+                isinstance(n, A.Py) and n.kind in ("If", "While", "Try",
+                                                   "ExceptHandler")
+                for n, fld in path) and any(
+                    isinstance(st, ast.Expr) and st.value is node
+                    for st in it.tree.body)
+            if isinstance(arg, ast.Name):
+                out["bare"] = True
+                out["filter_ok"] = True
+                continue
+            # a comprehension over rcontext.items() keeping the entries
+            # whose value object differs from the snapshot (new names and
+            # re-assigned ones)
+            ok = False
+            detail = src(arg)[:120]
+            if isinstance(arg, (ast.GeneratorExp, ast.ListComp,
+                                ast.DictComp)) and \
+                    len(arg.generators) == 1 and \
+                    src(arg.generators[0].iter) == "rcontext.items()" and \
+                    len(arg.generators[0].ifs) == 1:
+                g = arg.generators[0]
+                if isinstance(g.target, ast.Tuple) and len(g.target.elts) == 2:
+                    k_, v_ = src(g.target.elts[0]), src(g.target.elts[1])
+                    whole = "(%s, %s)" % (k_, v_)
+                else:
+                    k_, v_ = src(g.target) + "[0]", src(g.target) + "[1]"
+                    whole = src(g.target)
+                elt_ok = (src(arg.elt) in (whole, whole.strip("()"))
+                          if not isinstance(arg, ast.DictComp) else
+                          (src(arg.key), src(arg.value)) == (k_, v_))
+                mt = L.match(L.pat("_S.get(_K, __marker) is not _V", "expr"),
+                             g.ifs[0])
+                if mt is not None and elt_ok and src(mt["_K"]) == k_ and \
+                        src(mt["_V"]) == v_ and isinstance(mt["_S"], ast.Name):
+                    sk = L.name_key(it, mt["_S"])
+                    sn = snaps.get(sk)
+                    if sn is not None and out["call"] is not None and \
+                            sn[0] < out["call"] < i and \
+                            A.per_node(sn[1])[0]:
+                        ok = True
+                    else:
+                        detail += " (snapshot %s not taken per node before " \
+                                  "the call)" % src(mt["_S"])
+            out["filter_ok"] = ok
+            out["detail"] = detail
+    return out
 
 
 def _reserved_rule(repo, rep):
